@@ -79,7 +79,7 @@ func judgeConvSeq(c ConvSeqCase) (vs []evid.Violation) {
 	first := map[SchemaCase]seen{}
 	for i, st := range c.Steps {
 		name, schema := decStr(st.Name), decStr(st.Schema)
-		o := judgeSchemaText(st.Target, name, schema)
+		o := judgeSchemaForm(st.Target, name, schema, st.Form)
 		for _, v := range o.vs {
 			v.Detail = fmt.Sprintf("step %d of %d: %s", i, len(c.Steps), v.Detail)
 			vs = append(vs, v)
@@ -144,6 +144,7 @@ func genConvSeq(rt *rapid.T) (ConvSeqCase, bool, []string) {
 		schema map[string]interface{}
 		ref    int // -1: none; else index into names; -2: own name; -3: "#"
 		role   string
+		form   string // "" or a form without a schema ("nil", "doc-absent", "doc-null"; schema is nil then)
 	}
 	baseNames := []string{genIdent(rt, "cs.nameA"), genIdent(rt, "cs.nameB"), genName(rt, "cs.nameC"), genIdent(rt, "cs.nameD")}
 	well := func(l string) map[string]interface{} {
@@ -153,24 +154,26 @@ func genConvSeq(rt *rapid.T) (ConvSeqCase, bool, []string) {
 	var defs []def
 	tgt := func(l string) string { return rapid.SampledFrom(targets).Draw(rt, l) }
 	defs = append(defs,
-		def{tgt("cs.t0"), 0, well("cs.s0"), -1, "well-formed"},
-		def{tgt("cs.t1"), 0, well("cs.s1"), -1, "same-name-other-schema"},
-		def{tgt("cs.t2"), 1, well("cs.s2"), -1, "well-formed"},
-		def{tgt("cs.t3"), 2, well("cs.s3"), -1, "well-formed"})
+		def{tgt("cs.t0"), 0, well("cs.s0"), -1, "well-formed", ""},
+		def{tgt("cs.t1"), 0, well("cs.s1"), -1, "same-name-other-schema", ""},
+		def{tgt("cs.t2"), 1, well("cs.s2"), -1, "well-formed", ""},
+		def{tgt("cs.t3"), 2, well("cs.s3"), -1, "well-formed", ""})
 	{ // the same name again under a mutated schema
 		m := well("cs.s4")
 		op := "none"
 		for try := 0; try < 4 && op == "none"; try++ {
 			op = mutateSchema(rt, m, fmt.Sprintf("cs.mut%d", try))
 		}
-		defs = append(defs, def{tgt("cs.t4"), 0, m, -1, "same-name-mutated"})
+		defs = append(defs, def{tgt("cs.t4"), 0, m, -1, "same-name-mutated", ""})
 	}
 	// references to the names of other definitions, to the own name, to the own document
 	defs = append(defs,
-		def{tgt("cs.t5"), 3, well("cs.s5"), rapid.IntRange(0, 1).Draw(rt, "cs.ref5"), "ref-to-other-name"},
-		def{tgt("cs.t6"), 1, well("cs.s6"), 0, "ref-to-other-name"},
-		def{tgt("cs.t7"), 0, well("cs.s7"), -2, "ref-to-own-name"},
-		def{tgt("cs.t8"), 3, well("cs.s8"), -3, "ref-to-own-document"})
+		def{tgt("cs.t5"), 3, well("cs.s5"), rapid.IntRange(0, 1).Draw(rt, "cs.ref5"), "ref-to-other-name", ""},
+		def{tgt("cs.t6"), 1, well("cs.s6"), 0, "ref-to-other-name", ""},
+		def{tgt("cs.t7"), 0, well("cs.s7"), -2, "ref-to-own-name", ""},
+		def{tgt("cs.t8"), 3, well("cs.s8"), -3, "ref-to-own-document", ""},
+		// a name converted under a schema elsewhere in the history, here WITHOUT any schema
+		def{tgt("cs.t9"), rapid.IntRange(0, 1).Draw(rt, "cs.name9"), nil, -1, "same-name-no-schema", rapid.SampledFrom([]string{"nil", "doc-absent", "doc-null"}).Draw(rt, "cs.form9")})
 	n := rapid.IntRange(3, 9).Draw(rt, "cs.len")
 	picks := make([]int, n)
 	for i := range picks {
@@ -194,7 +197,7 @@ func genConvSeq(rt *rapid.T) (ConvSeqCase, bool, []string) {
 	// the tag: a digest of everything drawn
 	var sb strings.Builder
 	for _, d := range defs {
-		fmt.Fprintf(&sb, "%s|%d|%s|%d;", d.target, d.name, marshal(d.schema), d.ref)
+		fmt.Fprintf(&sb, "%s|%d|%s|%d|%s;", d.target, d.name, marshal(d.schema), d.ref, d.form)
 	}
 	fmt.Fprintf(&sb, "%q|%v|%v", baseNames, picks, refAt)
 	digest := sha256.Sum256([]byte(sb.String()))
@@ -213,10 +216,14 @@ func genConvSeq(rt *rapid.T) (ConvSeqCase, bool, []string) {
 		case d.ref == -3:
 			addRefAt(d.schema, "#", refAt[i])
 		}
+		if d.form != "" {
+			steps[i] = SchemaCase{Target: d.target, Name: encStr(names[d.name]), Form: d.form}
+			continue
+		}
 		steps[i] = SchemaCase{Target: d.target, Name: encStr(names[d.name]), Schema: encStr(marshal(d.schema))}
 	}
 	var c ConvSeqCase
-	refAfterTarget, repeat, sameName := false, false, false
+	refAfterTarget, repeat, sameName, noSchemaAfter := false, false, false, false
 	var seenNames []int
 	for i, pk := range picks {
 		c.Steps = append(c.Steps, steps[pk])
@@ -231,6 +238,9 @@ func genConvSeq(rt *rapid.T) (ConvSeqCase, bool, []string) {
 		for _, sn := range seenNames {
 			if sn == d.name {
 				sameName = true
+				if d.form != "" {
+					noSchemaAfter = true
+				}
 			}
 		}
 		for j := 0; j < i; j++ {
@@ -251,6 +261,7 @@ func genConvSeq(rt *rapid.T) (ConvSeqCase, bool, []string) {
 	add(refAfterTarget, "convseq:$ref-to-a-name-converted-earlier")
 	add(sameName, "convseq:same-name-converted-before")
 	add(repeat, "convseq:same-definition-repeated")
+	add(noSchemaAfter, "convseq:no-schema-under-a-name-converted-before")
 	add(!isIdentName(baseNames[2]), "convseq:wide-name")
 	return c, refAfterTarget || sameName, cl
 }
